@@ -59,6 +59,9 @@ const (
 	Observe
 	Monitor
 	Span
+	ParserStrict
+	ParserPooledOptions
+	ParserPositions
 	NKinds
 )
 
@@ -66,7 +69,8 @@ var names = [...]string{"tokenize-direct", "tokenize-pooled", "gosqlx.Parse", "g
 	"gosqlx.ParseMultiple", "gosqlx.ValidateMultiple", "gosqlx.ParseWithRecovery", "gosqlx.Format", "parser.ParseBytes",
 	"parser.ValidateBytes", "parser.ParseBytesWithTokens", "parser.ParseWithDialect", "AST.SQL+Format", "formatter.Format",
 	"gosqlx.Extract*", "security.ScanSQL", "security.Scan", "linter.LintString", "errors.SuggestKeyword", "observe-stats",
-	"monitor.Record*", "ast.SetSpan/GetSpan"}
+	"monitor.Record*", "ast.SetSpan/GetSpan", "Parser(strict).ParseFromModelTokens", "GetParser+ApplyOptions+Parse+PutParser",
+	"Parser.ParseFromModelTokensWithPositions"}
 
 func (k Kind) String() string { return names[k] }
 
@@ -316,6 +320,33 @@ func (o Op) Exec(hold bool) (res string, held []Held) {
 		}
 		_ = monitor.GetMetrics()
 		res = "monitored"
+	case ParserStrict, ParserPooledOptions, ParserPositions:
+		t, _ := tokenizer.New()
+		toks, terr := t.Tokenize([]byte(o.SQL))
+		if terr != nil {
+			res = canon.Err(terr)
+			break
+		}
+		var a *ast.AST
+		var err error
+		switch o.Kind {
+		case ParserStrict:
+			a, err = parser.NewParser(parser.WithStrictMode()).ParseFromModelTokens(toks)
+		case ParserPositions:
+			a, err = parser.NewParser().ParseFromModelTokensWithPositions(toks)
+		default:
+			p := parser.GetParser()
+			if o.Flag&1 == 1 {
+				p.ApplyOptions(parser.WithStrictMode())
+			}
+			if o.Flag&2 == 2 {
+				p.ApplyOptions(parser.WithDialect("mysql"))
+			}
+			a, err = p.ParseFromModelTokens(toks)
+			parser.PutParser(p)
+		}
+		res = treeCanon(a, err)
+		keepTree(a)
 	case Span:
 		a, err := gosqlx.Parse(o.SQL)
 		if err != nil || len(a.Statements) == 0 {
